@@ -545,7 +545,7 @@ def engine_check(run, pid, entries, make_cases, rule_text, assumptions, after=No
     if not ok and not run.violations:
         run.report({"kind": "proof", "theorem": pid}, {"theorem": "Props/%s.v" % pid, "log": log[-3000:]},
                    "%s: the Coq development no longer builds and no failing input was found" % pid, no_input=True)
-    if ok and pid == "C11":
+    if ok and pid in ("C04", "C05", "C11", "C12", "C13", "C14"):
         interp_facts_report(run, pid, bool(run.violations))
     cov = run.coverage
     if not diff_here and ok:
